@@ -1,9 +1,13 @@
 #!/bin/sh
-# builds the model driver from the extracted code (gen/numtext.ml is produced by coq/C13/Extract_C13.v)
+# Builds the model driver from the extracted code.  coq/C13/Extract_C13.v writes _build/numtext.ml{,i};
+# every compiled output stays under _build/ (git-ignored), nothing is written next to the sources.
 set -e
 cd "$(dirname "$0")"
 mkdir -p _build
-cp gen/numtext.ml gen/numtext.mli numdrv.ml _build/
+if [ ! -f _build/numtext.ml ]; then echo "missing _build/numtext.ml (build coq/C13/Extract_C13.vo first)" >&2; exit 3; fi
+if [ -x _build/numdrv ] && [ _build/numdrv -nt _build/numtext.ml ] && [ _build/numdrv -nt numdrv.ml ] && [ _build/numdrv -nt build.sh ]; then exit 0; fi
+cp numdrv.ml _build/numdrv.ml
 cd _build
-ocamlfind ocamlopt -O3 -unboxed-types 2>/dev/null >/dev/null || true
-ocamlfind ocamlopt -w -a -inline 200 -unsafe numtext.mli numtext.ml numdrv.ml -o ../numdrv
+ocamlfind ocamlopt -O3 -w -a -inline 200 -unsafe numtext.mli numtext.ml numdrv.ml -o numdrv.tmp 2>/dev/null || \
+ocamlfind ocamlopt -w -a -inline 200 -unsafe numtext.mli numtext.ml numdrv.ml -o numdrv.tmp
+mv numdrv.tmp numdrv
